@@ -18,6 +18,8 @@ import (
 
 	"github.com/containerd/stargz-snapshotter/cache"
 	"github.com/containerd/stargz-snapshotter/estargz"
+	"github.com/containerd/stargz-snapshotter/estargz/externaltoc"
+	"github.com/containerd/stargz-snapshotter/estargz/zstdchunked"
 	"github.com/containerd/stargz-snapshotter/fs/reader"
 	"github.com/containerd/stargz-snapshotter/metadata"
 	digest "github.com/opencontainers/go-digest"
@@ -410,6 +412,10 @@ func TargetArith(in *Input, rec *Rec, gz *Base, dir string) {
 			res, err = ArithPass(w, dir)
 		case "tree":
 			res, err = ArithTree(w, gz)
+		case "consts":
+			// the footer sizes the model hard-codes, read from the implementation (value, not source text)
+			res = fmt.Sprintf("%d %d %d %d", new(estargz.GzipDecompressor).FooterSize(), new(estargz.LegacyGzipDecompressor).FooterSize(),
+				new(zstdchunked.Decompressor).FooterSize(), externaltoc.NewGzipDecompressor(nil).FooterSize())
 		default:
 			err = errors.New("unknown op")
 		}
